@@ -763,18 +763,8 @@ fn history_cases(r: &mut Rng) -> Vec<Case> {
     c.tags = h.tags.clone();
     c.nontrivial = true;
     c.show = show.clone();
-    let section = if h.linear { "solution" } else { "readback" };
+    let section = "solution";
     match solved {
-        // arbitrary expression trees (several hostile constructs at once): which error the linearizer reports first is C01's
-        // matter; the `solve_with` glue (linearize first, its error wins) is diffed on the linear histories, where the only
-        // non-linear construct is an injected product of variables
-        Ok(Err(_)) if !h.linear => { c.tags.push("not-linearizable-undiffed".into()); c.req = head_req.clone(); c.imp = format!("(ok {})", head_imp); }
-        Ok(_) if h.div_by_var => {
-            // a division by an expression with variables: whether the linearizer reports `NonLinearExpression` or prunes the row
-            // first is the business of C01's model; the `solve_with` glue is not diffed on such a history
-            c.tags.push("solve-diff-skipped-div-by-variable".into());
-            c.req = head_req.clone(); c.imp = format!("(ok {})", head_imp);
-        }
         Ok(Ok(sol)) => {
             c.tags.push("readback-canned".into());
             if q_handles.iter().any(|i| sol.var_value(Var { index: *i }).is_none()) { c.tags.push("var-value-none".into()); }
